@@ -597,11 +597,11 @@ pub fn configs() -> Vec<Config> {
 // ---------------------------------------------------------------------------
 // cases
 
-struct Texts {
-    schema: Vec<(PathBuf, String)>,
-    ops: Vec<(PathBuf, String)>,
-    mode: &'static str,
-    mutated: bool,
+pub struct Texts {
+    pub schema: Vec<(PathBuf, String)>,
+    pub ops: Vec<(PathBuf, String)>,
+    pub mode: &'static str,
+    pub mutated: bool,
 }
 
 pub fn cap(s: String) -> String {
@@ -633,7 +633,7 @@ pub fn nesting(text: &str) -> usize {
     m
 }
 
-fn gen_texts(case: &mut Case, which: u8) -> Texts {
+pub fn gen_texts(case: &mut Case, which: u8) -> Texts {
     // which: 0 valid, 1 op token mutation, 2 schema token mutation, 3 char mutation, 4 soups
     // mutation decisions are drawn first so that they do not depend on how many choices the
     // document generators consume (an exhausted source yields zeros only)
@@ -735,6 +735,11 @@ pub fn pipeline_case(case: &mut Case, campaign: &'static str, which: u8, cfgs: &
     let cfg = case.ch.pick(cfgs).clone();
     if t.schema.iter().chain(t.ops.iter()).any(|f| nesting(&f.1) > 64) {
         case.discard("nesting beyond ordinary limits");
+        return Ok(());
+    }
+    if exponential_generate(&t.schema, &t.ops) && !case.allow("generate_exponential_nested_merge") {
+        // open known finding: excluded by construction (counted in excluded_by_known_finding)
+        case.label("excluded:generate-exponential");
         return Ok(());
     }
     let detail = json!({
@@ -998,6 +1003,14 @@ fn cli_case(case: &mut Case, base: &Path) -> CaseResult {
         case.discard("nesting beyond ordinary limits");
         return Ok(());
     }
+    {
+        let sf: Vec<(PathBuf, String)> = gp.schema_files.iter().map(|(p, t)| (PathBuf::from(p), t.clone())).collect();
+        let of: Vec<(PathBuf, String)> = gp.op_files.iter().map(|(p, t)| (PathBuf::from(p), t.clone())).collect();
+        if exponential_generate(&sf, &of) && !case.allow("generate_exponential_nested_merge") {
+            case.label("excluded:generate-exponential");
+            return Ok(());
+        }
+    }
     let dir = base.join(format!("p{:016x}", hash_of(&(case.ch.data(), thread_key()))));
     let proj: Project = write_project(&gp, &dir);
     let root = proj.path(&gp.layout.root);
@@ -1094,6 +1107,29 @@ pub fn run(env: &Env) -> i32 {
             Err(_) => Err(Failure::new("timeout", format!("parsing 40 import-like comment lines did not finish within {CASE_LIMIT_S}s"), json!({"text": text}))),
         }
     });
+    rep.probe("C08-generate-exponential-nested-merge", || {
+        // d = 9 levels: about 10 s while the finding is open, milliseconds once it is repaired; the probe
+        // waits 3 s (the worker thread is abandoned and dies with the process)
+        let d = 9;
+        let mut op = String::from("query Q($v: Boolean!) { a { ...F1 } }\n");
+        for i in 1..d {
+            op.push_str(&format!("fragment F{i} on A {{ a {{ ...F{} }} a {{ ...F{} }} a {{ ...F{} }} x @skip(if: $v) }}\n", i + 1, i + 1, i + 1));
+        }
+        op.push_str(&format!("fragment F{d} on A {{ x @skip(if: $v) y }}\n"));
+        let schema = "type A { a: A x: Int y: Int }\ntype Query { a: A }\n".to_string();
+        let (tx, rx) = std::sync::mpsc::channel();
+        let (s2, o2) = (schema.clone(), op.clone());
+        std::thread::spawn(move || {
+            let sf = vec![(PathBuf::from("/p/s.graphql"), s2)];
+            let of = vec![(PathBuf::from("/p/o.graphql"), o2)];
+            let cfg = configs().remove(0);
+            let _ = tx.send(run_pipeline(&sf, &of, &cfg, &Value::Null).map(|_| ()));
+        });
+        match rx.recv_timeout(Duration::from_secs(3)) {
+            Ok(r) => r,
+            Err(_) => Err(Failure::new("timeout:generate-exponential", "generate did not finish a 661-byte valid document within 3 s", json!({"schema": schema, "operation": op}))),
+        }
+    });
     rep.probe("C08-merge-conflict-panic", || project_probe("type Query { a: Int b: Query }\n", "query { x: a x: b { a } }\n"));
     rep.campaign("valid", env.cases(3_000, 150_000), (60, 2500), move |case| pipeline_case(case, "valid", 0, c));
     rep.campaign("op-token-mutation", env.cases(8_000, 400_000), (60, 2500), move |case| pipeline_case(case, "op-token-mutation", 1, c));
@@ -1175,4 +1211,133 @@ pub fn write_fuzz_seeds(dir: &Path) {
     for (i, c) in CONFIG_SEEDS.iter().enumerate() {
         std::fs::write(d_cfg.join(format!("cfg{i}.yaml")), c).unwrap();
     }
+}
+
+// ---------------------------------------------------------------------------
+// work estimate (known finding C08-generate-exponential-nested-merge)
+
+/// work estimate above which a project is excluded while C08-generate-exponential-nested-merge is open
+/// (about 0.3 s of `generate`)
+pub const WORK_LIMIT: u64 = 150_000;
+
+pub fn exponential_generate(schema: &[(PathBuf, String)], ops: &[(PathBuf, String)]) -> bool {
+    let st: Vec<&str> = schema.iter().map(|x| x.1.as_str()).collect();
+    let ot: Vec<&str> = ops.iter().map(|x| x.1.as_str()).collect();
+    work_estimate_texts(&st, &ot, WORK_LIMIT) >= WORK_LIMIT
+}
+
+/// Upper-bound model of the number of selection-set evaluations the operation type printer performs
+/// (and of the size of the type it emits): per selection set, one branch per possible object type and
+/// per assignment of the boolean variables used at that level; per branch, every field occurrence with
+/// a sub-selection is evaluated again. Saturates at `limit`.
+pub fn work_estimate(s: &crate::schema::Schema, doc: &MOpDoc, limit: u64) -> u64 {
+    use std::collections::BTreeSet;
+    let frags = frag_map(doc);
+    fn level<'a>(
+        s: &crate::schema::Schema,
+        frags: &'a std::collections::BTreeMap<String, MFragment>,
+        obj: &str,
+        sels: &'a [MSelection],
+        seen: &mut BTreeSet<String>,
+        vars: &mut BTreeSet<String>,
+        subs: &mut Vec<(&'a [MSelection], String)>,
+    ) {
+        let dirs = |ds: &[MDirective], vars: &mut BTreeSet<String>| {
+            for d in ds {
+                if d.name == "skip" || d.name == "include" {
+                    for (k, v) in &d.args {
+                        if k == "if" {
+                            if let MValue::Var(n) = v {
+                                vars.insert(n.clone());
+                            }
+                        }
+                    }
+                }
+            }
+        };
+        for sel in sels {
+            match sel {
+                MSelection::Field(f) => {
+                    dirs(&f.directives, vars);
+                    if let (Some(sub), Some(fd)) = (&f.sel, s.field(obj, &f.name)) {
+                        subs.push((sub.as_slice(), fd.ty.base().to_string()));
+                    }
+                }
+                MSelection::Spread { name, directives } => {
+                    dirs(directives, vars);
+                    if !seen.insert(name.clone()) {
+                        continue;
+                    }
+                    if let Some(fr) = frags.get(name) {
+                        if s.applies(&fr.on, obj) {
+                            level(s, frags, obj, &fr.sel, seen, vars, subs);
+                        }
+                    }
+                }
+                MSelection::Inline { on, directives, sel } => {
+                    dirs(directives, vars);
+                    if on.as_ref().map(|t| s.applies(t, obj)).unwrap_or(true) {
+                        level(s, frags, obj, sel, seen, vars, subs);
+                    }
+                }
+            }
+        }
+    }
+    fn size(s: &crate::schema::Schema, frags: &std::collections::BTreeMap<String, MFragment>, ty: &str, sels: &[MSelection], limit: u64, depth: usize) -> u64 {
+        if depth > 40 {
+            return limit;
+        }
+        let mut total: u64 = 0;
+        for o in s.possible(ty) {
+            let mut vars = BTreeSet::new();
+            let mut subs = vec![];
+            level(s, frags, &o, sels, &mut BTreeSet::new(), &mut vars, &mut subs);
+            let mut inner: u64 = 1;
+            for (sub, t) in subs {
+                inner = inner.saturating_add(size(s, frags, &t, sub, limit, depth + 1));
+                if inner >= limit {
+                    return limit;
+                }
+            }
+            total = total.saturating_add(inner.saturating_mul(1u64 << vars.len().min(20)));
+            if total >= limit {
+                return limit;
+            }
+        }
+        total
+    }
+    let mut worst = 0;
+    for d in doc {
+        let w = match d {
+            MExecDef::Op(o) => match s.root(o.op) {
+                Some(r) => size(s, &frags, &r, &o.sel, limit, 0),
+                None => 0,
+            },
+            MExecDef::Frag(f) => size(s, &frags, &f.on, &f.sel, limit, 0),
+            MExecDef::Import(_) => 0,
+        };
+        worst = worst.max(w);
+    }
+    worst
+}
+
+/// work estimate from texts (reference parsers); 0 when something does not parse (the pipeline stops
+/// before the printers then)
+pub fn work_estimate_texts(schema_texts: &[&str], op_texts: &[&str], limit: u64) -> u64 {
+    let mut defs = vec![];
+    for t in schema_texts {
+        match crate::refparse::parse_ts_doc(t) {
+            Ok(d) => defs.extend(d),
+            Err(_) => return 0,
+        }
+    }
+    let schema = crate::schema::Schema::from_doc(&defs);
+    let mut all: MOpDoc = vec![];
+    for t in op_texts {
+        match crate::refparse::parse_op_doc(t) {
+            Ok(d) => all.extend(d),
+            Err(_) => return 0,
+        }
+    }
+    work_estimate(&schema, &all, limit)
 }
